@@ -302,7 +302,7 @@ impl<TActor: ThreadLocalActor> ThreadLocalActorRuntime<TActor> {
 
         // setup supervision synchronously
         if let Some(sup) = &supervisor {
-            if !actor_ref.try_link(sup.clone()) {
+            if !actor_ref.try_link_starting(sup.clone()) {
                 return Err(SpawnErr::StartupFailed(
                     "Supervisor is shutting down".into(),
                 ));
